@@ -293,6 +293,20 @@ func ruleClientCache(c *Ctx) {
 	cinfo := cf.Pkg.TypesInfo
 	cg := p.Graph(cf)
 	clientF := p.FieldObj(modPath, "Client", "client")
+	// the cached field, or a local bound once to a read of it (a "lookup" helper
+	// that returns the field, inlined)
+	isClientRead := func(e ast.Expr) bool {
+		e = ast.Unparen(e)
+		if SelField(cinfo, e) == clientF {
+			return true
+		}
+		if v, ok := identObj(cinfo, e).(*types.Var); ok && !v.IsField() {
+			if d := p.singleDef(cf, v); d != nil && SelField(cinfo, ast.Unparen(d)) == clientF {
+				return true
+			}
+		}
+		return false
+	}
 	var stores []*Node
 	for _, n := range cg.Nodes {
 		if as, ok := n.Ast.(*ast.AssignStmt); ok {
@@ -319,7 +333,7 @@ func ruleClientCache(c *Ctx) {
 		construct := fmt.Sprintf("Client.client store #%d behind the cache test", i+1)
 		ok := cg.OnlyViaEdge(st, func(e *Edge) bool {
 			at, isAt := edgeAtom(cinfo, e)
-			return isAt && at.Kind == "nil" && at.Op == token.EQL && SelField(cinfo, at.X) == clientF
+			return isAt && at.Kind == "nil" && at.Op == token.EQL && isClientRead(at.X)
 		})
 		if ok {
 			c.R.Hold("R-ONCE", p.Pos(st.Ast), cf.Name, construct, "reachable only when Client.client == nil was observed (under the client lock, see R-GUARD)", true)
@@ -331,7 +345,7 @@ func ruleClientCache(c *Ctx) {
 	var testN *Node
 	for _, n := range cg.Nodes {
 		for _, e := range n.Succs {
-			if at, ok := edgeAtom(cinfo, e); ok && at.Kind == "nil" && SelField(cinfo, at.X) == clientF {
+			if at, ok := edgeAtom(cinfo, e); ok && at.Kind == "nil" && isClientRead(at.X) {
 				testN = n
 			}
 		}
@@ -361,10 +375,10 @@ func ruleClientCache(c *Ctx) {
 	// the cached value is returned on the hit edge
 	hit := false
 	for _, n := range cg.Nodes {
-		if rs, ok := n.Ast.(*ast.ReturnStmt); ok && len(rs.Results) == 2 && SelField(cinfo, rs.Results[0]) == clientF && isNilIdent(cinfo, rs.Results[1]) {
+		if rs, ok := n.Ast.(*ast.ReturnStmt); ok && len(rs.Results) == 2 && isClientRead(rs.Results[0]) && isNilIdent(cinfo, rs.Results[1]) {
 			if cg.OnlyViaEdge(n, func(e *Edge) bool {
 				at, isAt := edgeAtom(cinfo, e)
-				return isAt && at.Kind == "nil" && at.Op == token.NEQ && SelField(cinfo, at.X) == clientF
+				return isAt && at.Kind == "nil" && at.Op == token.NEQ && isClientRead(at.X)
 			}) {
 				hit = true
 			}
@@ -375,7 +389,7 @@ func ruleClientCache(c *Ctx) {
 		// the cache test every path reaches such a return without passing a store
 		isGoodRet := func(n *Node) bool {
 			rs, ok := n.Ast.(*ast.ReturnStmt)
-			return ok && len(rs.Results) == 2 && SelField(cinfo, rs.Results[0]) == clientF && isNilIdent(cinfo, rs.Results[1])
+			return ok && len(rs.Results) == 2 && isClientRead(rs.Results[0]) && isNilIdent(cinfo, rs.Results[1])
 		}
 		isStore := func(n *Node) bool {
 			for _, st := range stores {
@@ -388,7 +402,7 @@ func ruleClientCache(c *Ctx) {
 		for _, n := range cg.Nodes {
 			for _, e := range n.Succs {
 				at, isAt := edgeAtom(cinfo, e)
-				if !isAt || at.Kind != "nil" || at.Op != token.NEQ || SelField(cinfo, at.X) != clientF {
+				if !isAt || at.Kind != "nil" || at.Op != token.NEQ || !isClientRead(at.X) {
 					continue
 				}
 				if isGoodRet(e.To) {
